@@ -20,6 +20,9 @@ def main():
     runs = None
     keep = "--keep" in a
     a = [x for x in a if x != "--keep"]
+    save = None
+    if "--save-replays" in a:
+        i = a.index("--save-replays"); save = a[i + 1]; del a[i:i + 2]
     if "--tier" in a:
         i = a.index("--tier"); tier = a[i + 1]; del a[i:i + 2]
     if "--runs" in a:
@@ -64,6 +67,19 @@ def main():
                         classes.append(json.load(open(path)).get("class"))
                     except Exception:
                         classes.append("?")
+            if r.returncode == 1 and save:
+                os.makedirs(save, exist_ok=True)
+                for line in r.stdout.splitlines():
+                    if line.startswith("VIOLATION"):
+                        path = line.split("replay=")[1].strip()
+                        try:
+                            doc = json.load(open(path))
+                            doc["witness_of"] = os.path.basename(patch)
+                            doc["note"] = "recorded on a copy of the repository with this patch applied; replays without a violation on the repaired tree"
+                            json.dump(doc, open(os.path.join(save, "%s-%s.json" % (name, p)), "w"), indent=1)
+                        except Exception:
+                            pass
+                        break
             if r.returncode == 1:
                 results[p] = "CAUGHT " + ", ".join(sorted(set(map(str, classes))))
             elif r.returncode == 0:
